@@ -63,10 +63,13 @@ def roundtrip(c, kind, k):
     else:
         P = c.vec('p', n * k).reshape(n, k)
         F = g.par2fun(P)
+        # a one-column batch may come back without the trailing axis (the 2D geometries document that they squeeze it)
+        if k == 1 and tuple(np.shape(F)) == tuple(g.fun_shape): F = np.asarray(F)[..., None]
         c.holds('batch_fun_shape', tuple(np.shape(F)) == tuple(g.fun_shape) + (k,), note=f"{np.shape(F)} vs {tuple(g.fun_shape) + (k,)}")
         for j in range(k):
             c.eq(f'par2fun_acts_columnwise[{j}]', _col(F, j), g.par2fun(P[:, j]))
         B = g.fun2par(F)
+        if k == 1 and tuple(np.shape(B)) == (n,): B = np.asarray(B)[:, None]
         c.holds('batch_par_shape', tuple(np.shape(B)) == (n, k), note=f"{np.shape(B)} vs {(n, k)}")
         if tuple(np.shape(B)) == (n, k):
             for j in range(k):
